@@ -31,6 +31,10 @@ C = {
              text='FindInPaths (glob + re-resolution + type filter), FindInList (string glob) and FindInAll (routing, constants finders) are separate operators; that they agree on type-complete, path-backed searches and that junk changes nothing are invariants checked by TLC; every search is run through the four real finders on trees materialised from the same universes and validated.', ref='5 (C11)'),
  'C12': dict(tech='TLC model checking of MC_Store[sidreads] (children / siblings / leaf / parent-closure theorems) + replay of exists / children / siblings and of exists / find_one / as_sid on four finders + TLC trace validation',
              text='exists / children / siblings are defined through FindInAll as the code does; their set-theoretic meaning is an invariant of the model; the implementation is validated for every Sid of the universe (existing or not) and for every finder; reads after creates are part of the C15 behaviours.', ref='5 (C12)'),
+ 'C13': dict(tech='TLC model checking of Cache.tla (full key transparent over all histories; keyword-name key refuted) + guarded hook in spil.util.caching + histories (ordered pairs, random sequences, capacity 4096 and 3, data changes, partially consumed generators) run from pristine forked interpreters under 8 hash seeds + TLC trace validation of every cache decision and every answer (CacheTrace)',
+             text='A correct cache is modelled (hit only on a key this very call stored and that was not evicted, LIFO eviction only when full); the recorded decisions of the real wrappers are replayed through it and every top-level answer is compared with the answer of a pristine process for the same call and data epoch, and across hash seeds.', ref='5 (C13)'),
+ 'C14': dict(tech='TLC-generated pairs (MC_Core[eqlaws]) and operation sequences (SidHeap: Frozen, EqualIffSameUri) + replay on real Sids with every returned container damaged + TLC trace validation (EqClauses, ImmutTrace: every handle equals its creation value after every operation)',
+             text='Sids are values in the specification; the implementation is walked along TLC-generated operation sequences and after each operation the snapshot (string, type, fields, uri, hash) of every live handle is validated against the value bound at creation; equality / hash / order laws are validated on all pairs incl. same-string Sids of different types.', ref='5 (C14)'),
  'C15': dict(tech='TLC model checking of StoreDyn (all Writer behaviours to a depth; ExistsIff, FailChangesNothing, WriteIsLocal ...) + TLC -simulate behaviours + replay of every behaviour on a scratch tree + stateful TLC trace validation (StoreTrace: model state advanced by the spec action and compared with listing / sidecars / reads, incl. a new Getter and a new process)',
              text='The store is a state machine (tree, sidecars); create / update / set are actions with their failure branches; the guarantees are invariants and action properties over all histories; behaviours generated by TLC are replayed with the real WriteToPaths and the full projected state is validated after every call.', ref='5 (C15)'),
  'C16': dict(tech='TLC-generated family MC_Store[getter] (searches x attribute subsets x encoders) + replay of GetFromPaths / GetFromAll next to FindInPaths on seeded trees + TLC trace validation (GetterClauses)',
